@@ -23,7 +23,7 @@ func init() {
 				Run: ruleFutureOrder},
 			{ID: "C18.watchable", Floor: 6, Clause: "Watchable.Set allocates a fresh channel per value, swaps it in, and closes the previous cell's channel exactly when a previous cell exists; Value installs its empty cell by CompareAndSwap(nil, ·) only, returns it only when the CAS succeeded and otherwise re-loads; both return t and c of one and the same cell",
 				Run: ruleWatchable},
-			{ID: "C18.lazy-once", Floor: 1, Clause: "Lazy never calls f itself: f is handed to sync.OnceValue (or called only inside once.Do)",
+			{ID: "C18.lazy-once", Floor: 1, Clause: "Lazy never calls f itself: f is handed to sync.OnceValue, or called only inside once.Do - and then the accessor reads the value only after Do and tests a completion mark set after the value was stored, so that a panicking f is not turned into a silent zero value for later callers",
 				Run: ruleLazyOnce},
 		},
 		NotCovered: []string{"that an observer loop eventually sees the final value (liveness)", "equality with sync.Map beyond delegation and zero-value-on-absent"},
@@ -112,7 +112,21 @@ func ruleAssertSafe(c *Ctx, r *R) {
 				}
 				return
 			}
-			r.ok(ta.CommaOk, key, ta.Pos(), "single-result assertion on a value from "+src+": it panics when the interface is nil (absent key, or a nil value stored under an interface-typed V) instead of reporting the zero value")
+			safe := ta.CommaOk
+			if !safe {
+				// x.(V) under x != nil, when every value the package ever puts into a sync.Map is a V made into an interface:
+				// a non-nil interface out of the map then holds a V (for an interface-typed V: a value that implements it)
+				nonNil := false
+				for _, g := range guardsOf(b) {
+					if cf, ok := g.asCmp(); ok && cf.op == token.NEQ && isNilConst(cf.y) && cf.x == ta.X {
+						nonNil = true
+					}
+				}
+				if nonNil && syncMapOnlyHoldsV(c) {
+					safe = true
+				}
+			}
+			r.ok(safe, key, ta.Pos(), "single-result assertion on a value from "+src+": it panics when the interface is nil (absent key, or a nil value stored under an interface-typed V) instead of reporting the zero value")
 		})
 	}
 }
@@ -404,6 +418,30 @@ readers:
 				if ret, ok := ref.(*ssa.Return); ok && returnedValue(ret, 0) == ssa.Value(ld) {
 					retd = true
 				}
+				// carried to a single exit in the named result (value = f.x in the arm, one `return value, err` after the
+				// select): the merge that is returned, with a nil error arriving over the same edge
+				phi, isPhi := ref.(*ssa.Phi)
+				if !isPhi || phi.Referrers() == nil {
+					continue
+				}
+				for _, r2 := range *phi.Referrers() {
+					ret, ok := r2.(*ssa.Return)
+					if !ok || len(ret.Results) != 2 || returnedValue(ret, 0) != ssa.Value(phi) {
+						continue
+					}
+					ep, isEP := returnedValue(ret, 1).(*ssa.Phi)
+					for i, e := range phi.Edges {
+						if e != ssa.Value(ld) {
+							continue
+						}
+						if isEP && ep.Block() == phi.Block() && i < len(ep.Edges) && isNilConst(ep.Edges[i]) {
+							retd = true
+						}
+						if !isEP && isNilConst(returnedValue(ret, 1)) {
+							retd = true
+						}
+					}
+				}
 			}
 			r.ok(retd, name+"|returns-x#"+itoa(n), ld.Pos(), "the value delivered must be the filled x")
 		})
@@ -573,13 +611,35 @@ func ruleWatchable(c *Ctx, r *R) {
 	// the close must be reached whenever old != nil: its block is the true successor of the old != nil test (no further condition)
 	// Value
 	var cas *ssa.Call
-	var empty *ssa.Alloc
+	var empty ssa.Value
+	unbind := bindFuncParams(val)
+	defer unbind()
 	for _, d := range deepInstrs(val, 2) {
 		if call, ok := d.in.(*ssa.Call); ok {
 			if isCallTo(&call.Call, "sync/atomic", "Pointer", "CompareAndSwap") {
 				cas = call
 				if al, ok := call.Call.Args[2].(*ssa.Alloc); ok {
 					empty = al
+				} else if bc, ok := call.Call.Args[2].(*ssa.Call); ok && staticCallee(&bc.Call) != nil {
+					// built by the constructor literal the caller hands to a generic install helper (loadOrInit(&w.p, func()
+					// *inner { return &inner{c: make(chan struct{})} })): the call's result is that literal's fresh object
+					if _, isParam := bc.Call.Value.(*ssa.Parameter); isParam {
+						lit := staticCallee(&bc.Call)
+						nRet, fresh := 0, false
+						instrs(lit, func(_ *ssa.BasicBlock, _ int, in ssa.Instruction) {
+							if rt, ok := in.(*ssa.Return); ok {
+								nRet++
+								if len(rt.Results) == 1 {
+									if al, ok := rt.Results[0].(*ssa.Alloc); ok && al.Heap {
+										fresh = true
+									}
+								}
+							}
+						})
+						if nRet == 1 && fresh && lit.Parent() == val {
+							empty = bc
+						}
+					}
 				}
 			}
 		}
@@ -616,7 +676,7 @@ func ruleWatchable(c *Ctx, r *R) {
 	}
 	var leaves func(v ssa.Value, b *ssa.BasicBlock, d int) []leaf
 	leaves = func(v ssa.Value, b *ssa.BasicBlock, d int) []leaf {
-		if d > 5 {
+		if d > 5 || v == empty {
 			return []leaf{{v, b}}
 		}
 		switch x := v.(type) {
@@ -714,7 +774,7 @@ func ruleWatchable(c *Ctx, r *R) {
 			return base
 		}
 		baseT, baseC := fieldBase(returnedValue(ret, 0)), fieldBase(chv)
-		if baseC == ssa.Value(empty) {
+		if baseC == empty {
 			sawPlaceholder = true
 			r.ok(casOK(b), key, retPos(ret), "the placeholder's channel may be returned only when the CompareAndSwap succeeded; otherwise no Set will ever close it and the observer blocks forever on a stale value")
 			return
@@ -724,6 +784,13 @@ func ruleWatchable(c *Ctx, r *R) {
 		why := "value and channel are not read from one and the same cell"
 		if same {
 			for _, lf := range leaves(baseT, b, 0) {
+				if _, isAl := lf.v.(*ssa.Alloc); !isAl && lf.v == empty {
+					sawPlaceholder = true
+					if !casOK(lf.b) {
+						good, why = false, "the placeholder is handed out on a path where the CompareAndSwap did not succeed: no Set will ever close its channel and the observer blocks forever on a stale value"
+					}
+					continue
+				}
 				switch x := lf.v.(type) {
 				case *ssa.Call:
 					if isCallTo(&x.Call, "sync/atomic", "Pointer", "Load") {
@@ -732,7 +799,7 @@ func ruleWatchable(c *Ctx, r *R) {
 					}
 					good, why = false, "the cell comes from "+calleeName(&x.Call)+", not from an atomic Load"
 				case *ssa.Alloc:
-					if x == empty {
+					if ssa.Value(x) == empty {
 						sawPlaceholder = true
 						if !casOK(lf.b) {
 							good, why = false, "the placeholder is handed out on a path where the CompareAndSwap did not succeed: no Set will ever close its channel and the observer blocks forever on a stale value"
@@ -822,6 +889,82 @@ func ruleLazyOnce(c *Ctx, r *R) {
 	if onceClo == nil || valCell == nil {
 		return // sync.OnceValue variant: nothing to check here
 	}
+	// a panicking f: sync.Once is done after the first Do whatever happened inside it, so with a bare `once.Do(func() { val =
+	// f() }); return val` every caller after the one that saw the panic silently gets the zero value - a result f never
+	// produced (sync.OnceValue re-panics for every caller). The hand-written variant needs a completion mark: a captured
+	// variable other than the value, written in the once-closure after the value was stored (or in a deferred function of
+	// it), that the accessor tests before it answers.
+	marks := map[*ssa.Alloc]bool{}
+	var valStore ssa.Instruction
+	instrs(onceClo, func(_ *ssa.BasicBlock, _ int, in ssa.Instruction) {
+		if st, ok := in.(*ssa.Store); ok && cellOf(st.Addr) == valCell {
+			valStore = st
+		}
+	})
+	for _, g := range withAnon(onceClo) {
+		instrs(g, func(_ *ssa.BasicBlock, _ int, in ssa.Instruction) {
+			var cell *ssa.Alloc
+			switch x := in.(type) {
+			case *ssa.Store:
+				cell = cellOf(x.Addr)
+			case *ssa.Call:
+				if cal := x.Call.StaticCallee(); cal != nil && cal.Name() == "Store" && len(x.Call.Args) > 0 {
+					cell = cellOf(x.Call.Args[0])
+				}
+			}
+			if cell == nil || cell == valCell || rootFn(cell.Parent()) != fn {
+				return
+			}
+			if g != onceClo {
+				marks[cell] = true // written by a deferred / nested function of the once-closure
+				return
+			}
+			if valStore != nil && ((valStore.Block() == in.Block() && idxIn(valStore) < idxIn(in)) || (valStore.Block() != in.Block() && valStore.Block().Dominates(in.Block()))) {
+				marks[cell] = true
+			}
+		})
+	}
+	tested := false
+	for _, g := range withAnon(fn) {
+		if g == fn || g == onceClo || g.Parent() == onceClo {
+			continue
+		}
+		instrs(g, func(_ *ssa.BasicBlock, _ int, in ssa.Instruction) {
+			iff, ok := in.(*ssa.If)
+			if !ok {
+				return
+			}
+			var dep func(v ssa.Value, d int) bool
+			dep = func(v ssa.Value, d int) bool {
+				if d > 6 {
+					return false
+				}
+				switch x := v.(type) {
+				case *ssa.UnOp:
+					if x.Op == token.MUL {
+						if cell := cellOf(x.X); cell != nil && marks[cell] {
+							return true
+						}
+						return false
+					}
+					return dep(x.X, d+1)
+				case *ssa.BinOp:
+					return dep(x.X, d+1) || dep(x.Y, d+1)
+				case *ssa.Call:
+					for _, a := range x.Call.Args {
+						if cell := cellOf(a); cell != nil && marks[cell] {
+							return true
+						}
+					}
+				}
+				return false
+			}
+			if dep(iff.Cond, 0) {
+				tested = true
+			}
+		})
+	}
+	r.ok(tested, "xsync.Lazy|panic-safe", fn.Pos(), "hand-written once: when f panics sync.Once is done but the value was never assigned, and every later caller gets the zero value - which f never produced - instead of the panic (sync.OnceValue re-panics for each caller); the accessor must test a completion mark that the once-closure sets after storing the value")
 	for _, g := range withAnon(fn) {
 		if g == fn || g == onceClo {
 			continue
@@ -978,5 +1121,84 @@ var _ = late(func() {
 			if len(fcalls) == 0 {
 				r.violated("xsync.Map.Range|calls-f", cb.Pos(), "the callback never calls f")
 			}
+			// what the callback answers sync.Map.Range is f's own answer (false stops the iteration at once, as sync.Map does)
+			k := 0
+			instrs(cb, func(_ *ssa.BasicBlock, _ int, in ssa.Instruction) {
+				ret, ok := in.(*ssa.Return)
+				if !ok || len(ret.Results) != 1 {
+					return
+				}
+				k++
+				good := true
+				for _, lf := range valueLeaves(returnedValue(ret, 0), nil, 0) {
+					call, isCall := lf.v.(*ssa.Call)
+					if isCall && isUserCall(call) {
+						continue
+					}
+					// f's answer spelled out: if !f(k, v) { return false }; return true - a constant that a test of f's own
+					// result on the way makes equal to that result
+					same := false
+					if kc, isK := lf.v.(*ssa.Const); isK && kc.Value != nil && kc.Value.Kind() == constant.Bool {
+						for _, g := range guardsOf(ret.Block()) {
+							if gv, val := g.boolVal(); val == constant.BoolVal(kc.Value) {
+								if gc, ok := gv.(*ssa.Call); ok && isUserCall(gc) {
+									same = true
+								}
+							}
+						}
+					}
+					if !same {
+						good = false
+					}
+				}
+				r.ok(good, "xsync.Map.Range|returns-f-result#"+itoa(k), retPos(ret), "the callback must return what f returned: a constant true keeps calling f after it asked to stop (sync.Map.Range stops at once), a constant false stops after the first entry")
+			})
 		}})
 })
+
+// syncMapOnlyHoldsV: every value argument of a writing sync.Map method called in xsync (Store, LoadOrStore, Swap, the new value of
+// CompareAndSwap) is a value of the type parameter V converted to an interface.
+func syncMapOnlyHoldsV(c *Ctx) bool {
+	n, ok := 0, true
+	for _, fn := range c.funcsOfPkg("xsync") {
+		instrs(fn, func(_ *ssa.BasicBlock, _ int, in ssa.Instruction) {
+			call, isCall := in.(*ssa.Call)
+			if !isCall {
+				return
+			}
+			cal := call.Call.StaticCallee()
+			if cal == nil || cal.Signature.Recv() == nil || !isNamedType(cal.Signature.Recv().Type(), "sync", "Map") {
+				return
+			}
+			vi := -1
+			switch cal.Name() {
+			case "Store", "LoadOrStore", "Swap":
+				vi = 2
+			case "CompareAndSwap":
+				vi = 3
+			}
+			if vi < 0 || vi >= len(call.Call.Args) {
+				return
+			}
+			n++
+			var from ssa.Value
+			switch x := call.Call.Args[vi].(type) {
+			case *ssa.MakeInterface:
+				from = x.X
+			case *ssa.ChangeType: // (how the uninstantiated generic body converts a type parameter to any)
+				from = x.X
+			case *ssa.ChangeInterface:
+				from = x.X
+			}
+			if from == nil {
+				ok = false
+				return
+			}
+			tp, isTP := from.Type().(*types.TypeParam)
+			if !isTP || tp.Obj().Name() != "V" {
+				ok = false
+			}
+		})
+	}
+	return n > 0 && ok
+}
